@@ -83,6 +83,7 @@ func main() {
 	}
 	curFile, _ = os.OpenFile(*journal+".cur", os.O_CREATE|os.O_RDWR|os.O_TRUNC, 0o644)
 	debug.SetTraceback("all")
+	debug.SetMaxStack(64 << 20) // unbounded recursion in the code under test dies quickly
 	n := 0
 	t0 := time.Now()
 	for idx := *from; idx < total; idx++ {
